@@ -167,7 +167,7 @@ theorem routeLoop_clean (cfg : Cfg) (m : Nat → Bool) (pick : Nat → Nat) (t :
         have hl : litOf cfg pick (i, r) = some resp := by simp [litOf, ha]
         cases s with | mk client choice upstream connects wraps closes =>
         cases client with | mk buffer closed =>
-        simp [afterRoutes, List.filterMap_cons, hu, hl, Conn.queue]
+        simp [afterRoutes, hu, hl, Conn.queue]
 
 /-- a failing branch stops the loop there: nothing later is evaluated -/
 theorem routeLoop_fail_head (cfg : Cfg) (m : Nat → Bool) (pick : Nat → Nat) (p : Plugin) (ps : Table) (i : Nat)
@@ -230,7 +230,7 @@ theorem bodyOrChunks_ok (n : Nat) (hn : n ≠ 0) (req : Parser) :
     · simp only [hch, if_true]
       have : (n == 0) = false := by simpa using hn
       simp only [Px.Chunk.toChunks, this]
-      exact ⟨_, rfl, by simp [hch], by simp⟩
+      exact ⟨_, rfl, by simp, by simp⟩
     · have hch' : req.isChunked = false := by simpa using hch
       simp only [hch', Bool.false_eq_true, if_false]
       exact ⟨_, rfl, fun _ => rfl, by simp⟩
@@ -243,10 +243,14 @@ theorem build_shape (cfg : Cfg) (req : Parser) (u : Url) (host : Option Bytes) (
       .ok (buildRequest [] mth (fwdPath u) ver none (fwdHeaders cfg req host) body false true) := by
   have h1 : mth.isEmpty = false := by cases mth <;> simp_all
   have h2 : ver.isEmpty = false := by cases ver <;> simp_all
+  have hbc : ∀ q : Parser, q.body = req.body → q.isChunked = req.isChunked →
+      bodyOrChunks cfg.bufSize q = .ok body := by
+    intro q hq1 hq2
+    rw [← hbody]; unfold bodyOrChunks; rw [hq1, hq2]
   unfold Px.Build.build
-  simp only [retarget, hm, hv, hty, h1, h2, bodyOrChunks_retarget]
-  have : bodyOrChunks cfg.bufSize { req with path := u.remainder } = .ok body := hbody
-  simp [this, fwdPath, fwdHeaders]
+  simp only [retarget, hm, hv, hty, h1, h2]
+  rw [hbc _ (by rfl) (by rfl)]
+  rfl
 
 /-! ### Host rewriting touches the Host value only -/
 
